@@ -22,6 +22,9 @@ pub fn lab(l: u8) -> Label {
         5 => str_label("ba"),
         6 => Label::Greek('π'),
         7 => Label::Alpha(10),
+        // two different labels that print alike: a text with a blank inside, and the same text without
+        8 => Label::Str(['a', ' ', 'b', ' ', ' ', ' ', ' ', ' ']),
+        9 => str_label("ab"),
         // a family of distinct labels for wide vertices
         n => Label::Alpha(100 + n as usize),
     }
@@ -38,6 +41,7 @@ pub fn lab_text(l: u8) -> String {
         5 => "ba".into(),
         6 => "π".into(),
         7 => "α10".into(),
+        8 | 9 => "ab".into(),
         n => format!("α{}", 100 + n as usize),
     }
 }
